@@ -70,8 +70,21 @@ class BoxM(PyStub):
         return np.asarray(s, dtype=object).dot(V)
 
 
+def _deep(x):
+    """deepcopy on the model objects"""
+    if isinstance(x, AtomsM):
+        return AtomsM({k: a.copy() for k, a in x.view.items()})
+    if isinstance(x, BoxM):
+        return BoxM()
+    if isinstance(x, np.ndarray):
+        return x.copy()
+    return x
+
+
 class SystemM(PyStub):
-    def __init__(self, box=None, pbc=None, atoms=None, symbols=None, **kw):
+    def __init__(self, box=None, pbc=None, atoms=None, symbols=None, safecopy=False, **kw):
+        if safecopy:          # System.__init__ deep-copies the atoms and the box it is given (not the periodicity flags)
+            box, atoms = _deep(box), _deep(atoms)
         self.box, self.pbc, self.atoms, self.symbols, self.kw = box, pbc, atoms, symbols, kw
         self.dv_calls = []
 
@@ -91,7 +104,7 @@ def base_system(with_old_id=False):
     view = {'atype': arr([1, 2, 1, 2]), 'pos': symarray('p', (N, 3), real=True), 'charge': symarray('q', (N,), real=True)}
     if with_old_id:
         view['old_id'] = arr([7, 3, 9, 5])
-    return SystemM(box=BoxM(), pbc=(True, False, True), atoms=AtomsM(view), symbols=('Al', 'Cu'))
+    return SystemM(box=BoxM(), pbc=np.array([True, False, True], dtype=object), atoms=AtomsM(view), symbols=('Al', 'Cu'))
 
 
 def run_gen(ctx, name, system, match, kw):
@@ -102,9 +115,7 @@ def run_gen(ctx, name, system, match, kw):
 
     def deepcopy(x):
         copies.append(x)
-        if isinstance(x, AtomsM):
-            return AtomsM({k: a.copy() for k, a in x.view.items()})
-        return x
+        return _deep(x)
 
     class UC(PyStub):
         def set_in_units(self, v, u):
@@ -215,7 +226,9 @@ def generators(ctx):
                     ctx.ob('SITE', loc, '%s: the site is searched through the periodic separation between the (Cartesian) position and all atom positions' % tag, bool(okl), node=fn, key=tag + ' lookup')
                 # untouched
                 oku = all(equal(system.atoms.view[k], before[k], deep=False) for k in before) and list(system.atoms.view) == list(before)
-                okc2 = res.atoms is not system.atoms and any(c is system.box for c in copies) and any(c is system.pbc for c in copies)
+                shared = [k for k in res.atoms.view for k2 in system.atoms.view if np.shares_memory(res.atoms.view[k], system.atoms.view[k2])]
+                okc2 = res.atoms is not system.atoms and not shared and isinstance(res.box, BoxM) and res.box is not system.box \
+                    and res.pbc is not system.pbc and [bool(x_) for x_ in res.pbc] == [bool(x_) for x_ in system.pbc]
                 ctx.ob('UNTOUCHED', loc, '%s: the input system is not written; box, pbc and atoms of the result are copies; symbols are kept' % tag, bool(oku and okc2 and res.symbols == system.symbols), node=fn, key=tag + ' untouched')
     ctx.floor('COUNT-ORDER', n, 28)
 
